@@ -8,10 +8,10 @@ def run(tier, seed):
     try:
         from contracts import misc_c, conv_c
         from pyvc.verify import verify
-        res.report = verify(misc_c.targets_c15() + conv_c.targets(), timeout_s=20)
+        res.report = verify(misc_c.targets_c15() + conv_c.targets() + conv_c.targets_batch(), timeout_s=20)
     except ImportError:
         res.report = None
-    res.explanation = ('Tier P (unbounded in the extents): kyupy.logic.unpackbits, packbits (dtype uint8; 1, 3, 8, 9 planes), mv_to_bp (1 and 2 axes), bp_to_mv (1, 2, 3, 8 planes) are executed '
+    res.explanation = ('Tier P (unbounded in the extents): kyupy.logic.unpackbits, packbits (dtype uint8; 1, 3, 8, 9 planes), mv_to_bp (1 and 2 axes), bp_to_mv (1, 2, 3, 8 planes; both also with a leading batch axis) are executed '
                        'symbolically from their current source on functional arrays (shape, index -> element) with symbolic extents; numpy bit packing primitives enter by assumed contracts '
                        '(listed); proved element-wise for fresh index constants: result shapes, bit b of mv_to_bp(x)[i,p,j] = bit p of x[i,8j+b] with zero padding lanes, bit p of '
                        'bp_to_mv(y)[i,t] = bit t%8 of y[i,p,t//8], and the round trip bp_to_mv(mv_to_bp(x))[i,t] = x[i,t] & 7 (0 on padding lanes) by running bp_to_mv on the *specified* '
